@@ -28,6 +28,7 @@ type Term struct {
 	V      *Var     // Op == "var" / "addrvar"
 	Fields []string // Op == "struct": names parallel to Args (Args[0] is base or nil-const "zero")
 	Pos    token.Pos
+	Owner  string // Op == "field": the struct type that declares the field
 	k      string
 }
 
